@@ -97,6 +97,7 @@ def run_adaptive(params, known):
     '''Adaptive segment sizing: every assignment of {fast, slow} delays to the
     acknowledgements of a bundle of several segments (and a second pipelined
     bundle); no segment may exceed the peer's segment MRU.'''
+    prop = params.get('prop', PROP)
     violations = []
     count = 0
     samples = []
@@ -110,9 +111,9 @@ def run_adaptive(params, known):
                        seg_mru={'A': mru, 'B': mru}, tx_init={'A': init, 'B': init},
                        modulate={'A': target, 'B': None}, max_ticks=0)
             w = TcpclWorld(prm)
-            wire = WireMonitor(PROP)
-            dlv = DeliveryMonitor(PROP, expect_all=True)
-            w.monitors = [wire, dlv, EscapeMonitor(PROP)]
+            wire = WireMonitor(prop)
+            dlv = DeliveryMonitor(prop, expect_all=True)
+            w.monitors = [wire, dlv, EscapeMonitor(prop)]
             found = []
             acks = 0
             # deterministic schedule: run A to quiescence, then B, advancing the clock before
@@ -155,7 +156,7 @@ def run_adaptive(params, known):
                 violations.append(v)
         if violations:
             break
-    return dict(name='adaptive', evaluations=count, violations=violations[:4], known=[], samples=samples)
+    return dict(name=params.get('name', 'adaptive'), evaluations=count, violations=violations[:4], known=[], samples=samples)
 
 
 ASSUMPTIONS = [
